@@ -4,6 +4,7 @@ import (
 	"context"
 	"errors"
 	"fmt"
+	"io"
 	"net"
 	"os"
 	"os/exec"
@@ -518,26 +519,68 @@ func c04PanicFatal(out *evid.Out, viol func(string, string, map[string]interface
 			viol("panic-write", fmt.Sprintf("Panic() filtered=%v: writes=%d level=%d recovered=%v", filtered, w.n, w.last, rec), nil)
 		}
 	}
-	// WithLevel(Panic/Fatal) neither panics nor exits
-	for _, lv := range []zerolog.Level{zerolog.PanicLevel, zerolog.FatalLevel} {
-		for _, filtered := range []bool{true, false} {
-			n++
-			l := zerolog.New(w)
-			if filtered {
-				l = l.Level(zerolog.Disabled)
-			}
-			w.n = 0
-			var rec interface{}
-			func() {
-				defer func() { rec = recover() }()
-				l.WithLevel(lv).Msg("x")
-			}()
-			want := 1
-			if filtered {
-				want = 0
-			}
-			if rec != nil || w.n != want || (want == 1 && w.last != lv) {
-				viol("withlevel-terminal", fmt.Sprintf("WithLevel(%d) filtered=%v: recovered=%v writes=%d", lv, filtered, rec, w.n), nil)
+	// WithLevel(Panic/Fatal) neither panics nor exits - whatever the goroutine did just before: events are pooled, and a
+	// Panic() event that was written, discarded (by the caller or by a hook), sampled out or filtered, and recovered
+	// from, must leave nothing behind
+	histories := []func(){
+		func() {},
+		func() { defer func() { recover() }(); hl := zerolog.New(io.Discard); hl.Panic().Msg("h-written") },
+		func() {
+			defer func() { recover() }()
+			hl := zerolog.New(io.Discard).Hook(zerolog.HookFunc(func(e *zerolog.Event, _ zerolog.Level, _ string) { e.Discard() }))
+			hl.Panic().Msg("h-hook-discarded")
+		},
+		func() {
+			defer func() { recover() }()
+			hl := zerolog.New(io.Discard)
+			hl.Panic().Discard().Msg("h-discarded")
+		},
+		func() {
+			defer func() { recover() }()
+			hl := zerolog.New(io.Discard).Sample(recObj{})
+			hl.Panic().Msg("h-sampled-out")
+		},
+		func() {
+			defer func() { recover() }()
+			hl := zerolog.New(io.Discard).Level(zerolog.Disabled)
+			hl.Panic().Msg("h-filtered")
+		},
+		func() {
+			defer func() { recover() }()
+			hl := zerolog.New(io.Discard).Hook(zerolog.HookFunc(func(e *zerolog.Event, _ zerolog.Level, _ string) { e.Discard() }))
+			hl.Panic().Send()
+			hl.Panic().Msgf("%d", 1)
+		},
+	}
+	for hi, hist := range histories {
+		for _, lv := range []zerolog.Level{zerolog.PanicLevel, zerolog.FatalLevel, zerolog.InfoLevel, zerolog.NoLevel} {
+			for _, filtered := range []bool{true, false} {
+				n++
+				l := zerolog.New(w)
+				if filtered {
+					l = l.Level(zerolog.Disabled)
+				}
+				hist()
+				w.n = 0
+				var rec interface{}
+				func() {
+					defer func() { rec = recover() }()
+					switch {
+					case lv == zerolog.InfoLevel && hi%2 == 1:
+						l.Info().Msg("x")
+					case lv == zerolog.NoLevel && hi%2 == 1:
+						l.Log().Msg("x")
+					default:
+						l.WithLevel(lv).Msg("x")
+					}
+				}()
+				want := 1
+				if filtered {
+					want = 0
+				}
+				if rec != nil || w.n != want || (want == 1 && w.last != lv) {
+					viol("withlevel-terminal", fmt.Sprintf("WithLevel(%d) filtered=%v after history %d: recovered=%v writes=%d", lv, filtered, hi, rec, w.n), nil)
+				}
 			}
 		}
 	}
